@@ -311,8 +311,11 @@ class MatMulTranspose(orp.RewriteRuleClassBase):
         if fused:
             fused_node = _get_node(fused, "FusedMatMul")
             kwargs = _get_kwargs(fused_node)
-        for name in ["transA", "transB"]:
-            kwargs[name] = 1 - kwargs.get(name, 0)
+        # (op(X) @ op(Y))^T == op(Y)^T @ op(X)^T: the operands are swapped, so each flag
+        # is derived from the flag of the *other* original operand.
+        trans_a, trans_b = kwargs.get("transA", 0), kwargs.get("transB", 0)
+        kwargs["transA"] = 1 - trans_b
+        kwargs["transB"] = 1 - trans_a
         return op.FusedMatMul(y, x, **kwargs, _domain="com.microsoft")
 
 
